@@ -260,4 +260,16 @@ PROPS = {
                 "for timeouts; for cancellation a case in which the handler verifiably announced the blocking point before the cancel was issued.",
         "assumptions": ["'promptly' is observed as 'within 10 s'"],
     },
+    "C10": {
+        "pkg": "c10",
+        "stages": [{"run": "^TestProp$", "quick": (300, 4), "thorough": (4000, 16), "timeout": {"quick": 900, "thorough": 5400}}],
+        "technique": "property-based testing (rapid): generated lock-step call scripts run directly against a real reflection-enabled backend and through larking (RegisterConn); differential comparison of backend and client transcripts",
+        "level_text": "Generated call scripts (unary and the three streaming shapes, request metadata incl. -bin and multi-valued keys, ping-pong or batch discipline, backend failure before the "
+                      "first response / after k responses / after the client's half-close, status with message and details) are executed with a real grpc-go client directly against the "
+                      "backend and through larking over h2c (identity and gzip), and with HTTP/JSON on the implicit binding; transcripts must be identical. Exploration only.",
+        "level_note": "Scripts are lock-step so transcripts are schedule-independent; client-side Send errors after a backend failure are not compared; transport-generated metadata is excluded; a call that does not finish within 8 s counts as a hang.",
+        "rule": "rapid draws shape, front end, 0-5 request messages from the universe generator, 0-3 metadata keys, reply count, discipline and failure point/code/message/details. Non-trivial = "
+                "streaming with >=2 messages in some direction, or a failure point, or -bin/multi-valued metadata; distinct = the whole script.",
+        "assumptions": ["with the HTTP/JSON front only response messages and, for failures before the first response, the status are compared"],
+    },
 }
